@@ -19,6 +19,7 @@
 #ifdef ROOTSIM_VERIF
 extern uint_fast64_t verif_now(void);
 #define timer_new() verif_now()
+#define timer_value(start) (verif_now() - (start))
 #endif
 
 /// The messages queue of the serial runtime
